@@ -312,8 +312,12 @@ def sel(index, rep):
     rm = index.func(RMNT, "ScenarioRunnerNoTrade.run_model_no_trade")
     unp = [s for s in walk_no_nested(rm) if isinstance(s, ast.Assign) and isinstance(s.value, ast.Call)
            and dotted(s.value.func) == "self.get_countries_to_run_and_skip"]
-    ok = len(unp) == 1 and isinstance(unp[0].targets[0], ast.Tuple) and [norm_src(e) for e in unp[0].targets[0].elts] == \
-        ["exclusive_countries_to_run", "countries_to_skip"] and norm_src(unp[0].value.args[0]) == "countries_list"
+    nd = len(rm.args.args) - len(rm.args.defaults)
+    cparams = [a.arg for i, a in enumerate(rm.args.args) if "countr" in a.arg and i >= nd and isinstance(rm.args.defaults[i - nd], ast.List)]
+    # (the two targets are bound by position in C15.ACC's evaluation of the loop: slot 0 is used as the inclusion list, slot 1 as the skip list)
+    ok = len(unp) == 1 and isinstance(unp[0].targets[0], ast.Tuple) and len(unp[0].targets[0].elts) == 2 and all(
+        isinstance(e, ast.Name) for e in unp[0].targets[0].elts) and len({e.id for e in unp[0].targets[0].elts}) == 2 and \
+        len(cparams) == 1 and norm_src(unp[0].value.args[0]) == cparams[0]
     rep.check(ok, rule, "caller:unpack-order", "run_model_no_trade does not unpack (inclusion list, skip list) in that order from its "
               "countries_list argument", loc=loc(RMNT, rm))
     # the selection helper leaves the caller's list alone (a YAML file's country list is reused for every simulation of the file)
